@@ -533,6 +533,15 @@ fn run_buf_program(p: &Value, out: &mut String) {
                             d.truncate(g);
                             res.v = d;
                         }
+                        "to_string" => {
+                            // text: Ok(number of bytes) and the whole remaining sequence appended when it is
+                            // valid UTF-8 (the law knows ASCII and two-byte characters; otherwise it is silent)
+                            let mut s = String::from("ab");
+                            let got = rd.read_to_string(&mut s);
+                            res.flag = got.is_ok() && s.as_bytes().starts_with(b"ab");
+                            res.n = got.unwrap_or(0) as i64;
+                            res.v = s.as_bytes()[2.min(s.len())..].to_vec();
+                        }
                         "to_end" => {
                             let mut d = vec![7u8, 7, 7];
                             let got = rd.read_to_end(&mut d);
